@@ -15,7 +15,7 @@ ASSUMPTIONS = [
     "option grid: function kind {static,self,cls} x inline_types x emit_as_kwonlyargs x indent_level 0..2 x emit_default_doc "
     "(quick: covering subset; thorough: full grid on a reduced shape set)",
 ]
-QUICK = ["p1_optint_d", "p1_optbool_f", "p1_int", "p1_int_d", "p1_str_s", "p1_bool_b", "p1_optint_none", "p2_d_then_plain", "p2_plain_then_d", "p1_ret",
+QUICK = ["p0_kwargs", "p1_noprose_kwargs", "p1_optint_d", "p1_optbool_f", "p1_int", "p1_int_d", "p1_str_s", "p1_bool_b", "p1_optint_none", "p2_d_then_plain", "p2_plain_then_d", "p1_ret",
          "p1_ret_d", "ret_only", "p1_kwargs", "p0", "p3_mixed", "p1_literal"]
 GRID_Q = [
     ("function", {"inline_types": True, "kwonly": False, "indent_level": 1, "emit_default_doc": True}),
@@ -49,7 +49,7 @@ def obligations(tier, seed):
     if tier == "quick":
         for i, sid in enumerate(QUICK):
             for j, (kind, opts) in enumerate(GRID_Q):
-                if (i + j) % 2 == 0 or sid in ("p2_plain_then_d", "ret_only", "p1_kwargs"):
+                if (i + j) % 2 == 0 or sid in ("p2_plain_then_d", "ret_only", "p1_kwargs", "p0_kwargs", "p1_noprose_kwargs"):
                     obs.append(mk_ob("rt", "rt", kind, sid, opts, tier, funcs=FUNCS))
         for kind, o in (("method", dict(GRID_Q[1][1], ftype_from_ir=True)), ("method", dict(GRID_Q[2][1], ftype_from_ir=True)),
                         ("function", dict(GRID_Q[0][1], ftype_from_ir=True))):
